@@ -242,6 +242,16 @@ def run_cli(desc, ctx):
     for c in inp["cells"].values():
         c["obs"] = rng.choice(grid + [None])
         c["fcst"] = rng.choice(grid + [None])
+    # one station reports a single valid pair: a 2x2 table with total 1 is still a table
+    lone = gen.fnum(inp["locs"][-1][0])
+    mine = [k_ for k_ in inp["cells"] if k_.split("|")[2] == lone]
+    keep = rng.choice(mine)
+    for k_ in mine:
+        if k_ != keep:
+            inp["cells"][k_]["obs"] = None
+        else:
+            inp["cells"][k_]["obs"] = rng.choice(grid)
+            inp["cells"][k_]["fcst"] = rng.choice(grid)
     path = gen.write_input(inp, d, None)
     pairs = [(c["obs"], c["fcst"]) for c in inp["cells"].values() if c["obs"] is not None and c["fcst"] is not None]
     for name in sorted(cat_metrics()):
@@ -276,7 +286,7 @@ def run_cli(desc, ctx):
         # averages the per-event scores ("Average all thresholds")
         from vmon import refmodel
         ds1 = {"inputs": [inp], "clim": None}
-        axis = rng.choice(["no", "leadtime", "location", "time"])
+        axis = rng.choice(["no", "leadtime", "location", "location", "time"])
         sl = refmodel.slices(ds1, 0, [("obs",), ("fcst",)], axis)
         for tsub in ([ts[0], ts[1]] if (ul and uu) else [ts[rng.randrange(3)]], ts):
             nev = len(tsub) - 1 if (ul and uu) else len(tsub)
